@@ -306,7 +306,11 @@ h_HXPread(void)
 #if H4V_CASE == 5
     H4V_COVER(r > 0 && g_open_n == 1 && g_close_n == 1, "HXPread reopened after HXsetdir");
 #endif
+#if H4V_CASE != 3 && H4V_CASE != 4 /* at or after the end nothing is read, so no stdio call can fail */
     H4V_COVER(r == FAIL && g_io_failed, "HXPread fault");
+#else
+    H4V_COVER(r == 0, "HXPread at/after the end returns 0");
+#endif
     H4V_CANARY("HXPread end");
 }
 
